@@ -6,7 +6,7 @@ parent, hidden, zero-sized now and then) on small terminals: take-focus, cursor 
 child-notification switches, show / hide, the four restacking requests, geometry changes (each followed by the exposes
 of the old and the new area in the parent, C01's proviso), close, unref (leaf first), expose, flush.  Cursor positions
 are drawn mostly inside the window, around its edges, and under overlapping siblings and children.
-exhaustive: every sequence of <= 4 operations from a 17-letter alphabet (focus / hide / show / restack / cursor / close /
+exhaustive: every sequence of <= 4 operations from an 18-letter alphabet (focus / hide / show / restack / cursor / close /
 flush) on a fixed two-level tree with an overlapping sibling, each closed by a flush.
 
 Histories come in three blocks, in this order.  (The blocks were introduced while the library still had the four C15
@@ -27,6 +27,11 @@ tickit_term_getctl_int / tickit_mockterm_get_position).  Windows get an explicit
 now and then right after creation (the window layer sends CURSORBLINK only for those), so that shape, blink and
 visibility are all sent on a restore.  One history in seven also resizes the terminal (`termsize`: shrinking through
 windows and the cursor cell, growing, same size); the root window follows through its resize handler.
+
+A window that took the focus last is, now and then, repositioned *without* the proviso's exposes (`repos` alone, 35 % of
+its geometry changes; mostly to where its cursor cell ends up under a sibling, outside its parent, or in the open):
+tickit_window_reposition requests the cursor restore itself for a focused window, so the property must hold there
+with nothing else pending for the flush.  (Any other window's geometry change keeps the exposes: C01's proviso.)
 
 The generator keeps within the engine's scope guards (see harness/focus.c): no operation on closed windows or below
 them, unref only of windows without live children.
@@ -61,6 +66,7 @@ class Hist:
         self.pending = set()
         self.fset = set()      # discipline >= 1: the windows that may take the focus (an antichain)
         self.notify = set()    # windows that asked for child notifications
+        self.holder = None     # the window that took the focus last (is_focused is set on it whatever its ancestors are)
         emit("%s %d %d" % ("newmock" if self.mock else "new", L, C))
         if disc and rng.random() < 0.08: self.fset.add(0)
 
@@ -180,10 +186,32 @@ class Hist:
         note("cur_edge")
         return (rng.choice([-1, 0, n - 1, n, n + 3]), rng.choice([-1, 0, c - 1, c, c + 2]))
 
+    def bare_reposition(self, i):
+        """the focus holder moves, nothing else is pending: under a sibling, outside the parent, or into the open"""
+        p = self.w[i]["parent"]
+        old = self.w[i]["rect"]
+        _, _, pn, pc = self.w[p]["rect"]
+        sibs = [j for j in self.kids(p) if j != i]
+        x = rng.random()
+        if x < 0.45 and sibs:
+            t, l, h, wd = self.w[rng.choice(sibs)]["rect"]; note("bare_repos_under_sibling")
+            new = (t + rng.randint(-1, max(0, h - 1)), l + rng.randint(-1, max(0, wd - 1)))
+        elif x < 0.7:
+            note("bare_repos_outside_parent")
+            new = (rng.choice([pn, pn + 1, -old[2], -old[2] - 2, old[0]]), rng.choice([pc, pc + 2, -old[3], -old[3] - 1, old[1]]))
+        else:
+            note("bare_repos_open")
+            new = (rng.randint(0, max(0, pn - 1)), rng.randint(0, max(0, pc - 1)))
+        emit("repos %d %d %d" % (i, new[0], new[1]))
+        self.w[i]["rect"] = (new[0], new[1], old[2], old[3])
+        if rng.random() < 0.8: emit("flush"); self.pending.clear()
+
     def geom_change(self, i):
         p = self.w[i]["parent"]
         old = self.w[i]["rect"]
         k = rng.random()
+        if i == self.holder and self.disc < 2 and rng.random() < 0.35:
+            self.bare_reposition(i); return
         if self.disc >= 2:
             # stay inside the parent; a window with children only moves
             _, _, pn, pc = self.w[p]["rect"]
@@ -224,7 +252,7 @@ class Hist:
         any_ = rng.choice(us) if rng.random() < 0.12 else i
         if x < 0.26:
             tgt = self.focus_target(any_)
-            if tgt is not None: emit("focus %d" % tgt)
+            if tgt is not None: emit("focus %d" % tgt); self.holder = tgt
         elif x < 0.36:
             emit("curpos %d %d %d" % ((any_,) + self.cursor_cell(any_)))
         elif x < 0.41:
@@ -250,6 +278,8 @@ class Hist:
         elif x < 0.75:
             emit("%s %d" % (rng.choice(["raise", "raisefront", "lower", "lowerback"]), i)); self.pending.add(i)
         elif x < 0.83:
+            h = self.holder
+            if h is not None and h != 0 and self.live(h) and not self.detached(h) and rng.random() < 0.4: i = h
             self.geom_change(i)
         elif x < 0.86:
             if self.kids(i): note("close_with_children")
@@ -313,9 +343,12 @@ def scenario_history():
         if h.resizing and rng.random() < 0.12:
             h.term_resize()
             if rng.random() < 0.6: emit("flush")
-        elif x < 0.55:
-            emit("focus %d" % rng.choice(targets if rng.random() < 0.9 else allw))
+        elif x < 0.5:
+            h.holder = rng.choice(targets if rng.random() < 0.9 else allw)
+            emit("focus %d" % h.holder)
             if rng.random() < 0.75: emit("flush")
+        elif x < 0.55:
+            if h.holder: h.bare_reposition(h.holder)
         elif x < 0.67:
             emit("%s %d" % (rng.choice(["raise", "raisefront", "lower", "lowerback"]), rng.choice(targets)))
             if rng.random() < 0.7: emit("flush")
@@ -352,7 +385,7 @@ if a.tier == "exhaustive":
     setup = ["new 6 10", "win 1 0 1 1 4 6 0", "win 2 0 2 4 3 5 0", "win 3 1 1 1 2 3 0", "notify 1 1", "notify 0 1",
              "curpos 1 1 3", "curpos 2 0 0", "curpos 3 0 1", "flush"]
     alphabet = ["focus 0", "focus 1", "focus 2", "focus 3", "hide 1", "hide 2", "hide 3", "show 1", "show 3",
-                "lower 2", "raise 1", "curvis 1 0", "curpos 1 0 0", "curshape 3 2", "close 3", "hide 0", "flush"]
+                "lower 2", "raise 1", "curvis 1 0", "curpos 1 0 0", "curshape 3 2", "close 3", "hide 0", "flush", "repos 1 2 4"]
     nh = 0
     for k in range(1, 5):
         for seq in itertools.product(alphabet, repeat=k):
@@ -362,7 +395,13 @@ if a.tier == "exhaustive":
                 elif closed and s.endswith(" 3") or (closed and s.startswith("curshape 3")): bad = True
             if bad: continue
             for s in setup: emit(s)
-            for s in seq: emit(s)
+            holder = None
+            for s in seq:
+                emit(s)
+                if s.startswith("focus "): holder = s
+                elif s == "repos 1 2 4" and holder != "focus 1":
+                    # not the focus holder: C01's proviso (exposes of the old and the new area)
+                    emit("exposer 0 1 1 4 6"); emit("exposer 0 2 4 4 6")
             emit("flush")
             nh += 1
     # the same tree on the library's mock terminal, windows with an explicit blink mode and distinct shapes, and the
@@ -378,7 +417,7 @@ if a.tier == "exhaustive":
             for s in seq: emit(s)
             emit("flush")
             nh2 += 1
-    info = {"exhaustive_bound": "every sequence of <=4 operations from a 17-letter alphabet on a fixed two-level tree (root, two overlapping children, one grandchild), each closed by a flush; and on the library's mock terminal, with explicit blink modes and distinct shapes, every sequence of <=3 operations from a 20-letter alphabet that includes four terminal resizes", "histories": nh + nh2}
+    info = {"exhaustive_bound": "every sequence of <=4 operations from an 18-letter alphabet (incl. a reposition of window 1, without exposes when it holds the focus) on a fixed two-level tree (root, two overlapping children, one grandchild), each closed by a flush; and on the library's mock terminal, with explicit blink modes and distinct shapes, every sequence of <=3 operations from a 20-letter alphabet that includes four terminal resizes", "histories": nh + nh2}
 else:
     H = 1800 if a.tier == "quick" else 12000
     for k in range(H):
